@@ -7,7 +7,7 @@ import subprocess
 import tempfile
 import time
 
-CONTRACT_MODULES = ['c05_nests', 'c05_logit', 'c05c_nodes', 'c05c_builders', 'c05c_nested']
+CONTRACT_MODULES = ['c05_nests', 'c05_logit', 'c05c_nodes', 'c05c_builders', 'c05c_nested', 'c05d_nodes', 'c05d_cnl']
 LEVEL = 'other'
 TRUSTED = ['pyvc (VC generator, Python semantics of the stated subset)', 'z3 5.1.0 / cvc5',
            'mpmath 30-digit arithmetic and sympy differentiation (checking half of the translation validation)',
@@ -17,7 +17,10 @@ TRUSTED = ['pyvc (VC generator, Python semantics of the stated subset)', 'z3 5.1
            'engine extension pyvc/libext/c05c_tree.py (nodes built inside comprehensions of symbolic length as terms mk!K(args) '
            'governed by the verified constructor contracts; NamedTuple._replace; isinstance with a tuple of classes; iteration '
            'over an object through its __iter__; set enumeration; hypothesis-subset discharge strategy) and the spec functions of '
-           'specs/c05c_specs.py (value function, dispatch link, cut rule, nest sum)']
+           'specs/c05c_specs.py (value function, dispatch link, cut rule, nest sum)',
+           'engine extension pyvc/libext/c05d_ext.py (float.is_integer, float(x), `lst += [a]` as append, set(Optional set), named '
+           'membership array of a set difference, class of an untyped receiver by entailment inside Expression.__pow__, type of the '
+           'local gi_terms) and the spec functions of specs/c05d_specs.py (inner sum of a cross-nested nest, frame invariant)']
 ASSUMPTIONS = ['A-REAL: floats are mathematical reals (native values are compared with 1e-8 relative / 1e-11 absolute tolerance)',
                'LIBSPEC: numpy.exp / numpy.log are uninterpreted over the reals with exp > 0 and log(0) = -inf (pyvc/libext/c05_loginf.py)',
                'Expression.get_value of an operand is a pure function of the operand (abstract contract, trusted, not verified here)',
@@ -45,7 +48,12 @@ ASSUMPTIONS = ['A-REAL: floats are mathematical reals (native values are compare
                'the defining axioms of c05c_lng (choice functions nestof / posof: a conservative extension) are hypotheses of the named '
                'lemma steps only (c05c_cut_with)',
                'products of two symbolic reals in get_mev_for_nested / lognested / nested are uninterpreted (commutative rmul): the '
-               'obligations are equalities of terms; exp(-log s) = 1/s and exp(-inf) = 0 are not used']
+               'obligations are equalities of terms; exp(-log s) = 1/s and exp(-inf) = 0 are not used',
+               'cross-nested builder (contracts/c05d_cnl.py): nest and allocation parameters are Expression objects, nest parameters of '
+               'value != 0, allocation parameters of value > 0; ASSUMED (check_safe=False): no KeyError / None dereference inside '
+               'get_mev_for_cross_nested (every alternative of a nest has a utility, an availability and a term list); ASSUMED: '
+               'NestsForCrossNestedLogit.check_validity is a pure function of the nests (no fact about its result is used); A-ANNOT '
+               'c05d: the local gi_terms is typed dict[int, list[Expression]] (its source annotation dict[int, Expression] is wrong)']
 EXPLANATION = ('Deductive part: the log-logit kernel LogLogit.get_value (availability filter, log-sum-exp, unavailable chosen '
                'alternative) and OneNestForNestedLogit.intersection are proved against contracts for all inputs; the probability '
                'versions are shown by AST analysis to be exp(.) of the log versions.  Bounded part (shape-bounded translation '
@@ -63,13 +71,18 @@ EXPLANATION = ('Deductive part: the log-logit kernel LogLogit.get_value (availab
                'and 0 for the alternatives left alone.  Round 3: models.lognested / nested are proved to return a tree whose value is ONE closed '
                'form over util / availability / nests: the MEV kernel with h_k = V_k + c05c_lng(nests, util, av, k), where c05c_lng is '
                'DEFINED (specs/c05c_specs.py) as the nested-logit term of the nest of k and 0 outside every nest; BiogemeError is raised '
-               'exactly when check_partition rejects the nests.')
+               'exactly when check_partition rejects the nests.  Round 3 (agent c05d, contracts/c05d_*.py): the power nodes '
+               '(PowerConstant, the three branches of Expression.__pow__) are verified for C05 and, for the CROSS-NESTED builder '
+               'get_mev_for_cross_nested, for every number of nests and alternatives: the node biosum of nest m has the value '
+               'sum_j [av_j *] alpha_mj^mu_m exp(mu_m V_j) (both availability branches), the node appended to the term list of '
+               'alternative i has the value alpha_mi^mu_m exp((mu_m - 1) V_i) biosum^((1 - mu_m)/mu_m), and no entry container is written.')
 LEVEL_TEXT = ('Mixed: deductive proof (all inputs) for the log-logit kernel and the static exp-of-log obligations; the model builders '
               '(nested, cross-nested, MEV, ordered) are decided by shape-bounded translation validation on the real code, labelled '
               'bounded and never counted as proved.  Round 2: logit / loglogit / logmev / mev / get_mev_for_nested (and the composition '
               'in lognested / nested, with its closed form) are additionally proved for all shapes as term equalities over uninterpreted exp / log; '
               'cross-nested, the mu variants, ordered models and the numeric clauses (unit interval, sum to one, shift invariance) '
-              'remain bounded.')
+              'remain bounded.  Round 3: per-nest sum, per-iteration term and frame of get_mev_for_cross_nested are discharged for all '
+              'shapes; the sum of the terms per alternative (logzero(bioMultSum(G))), logcnl / cnl and the mu variants remain bounded.')
 LEVEL_NOTE = ('Trusted: pyvc, z3/cvc5, mpmath/sympy, the SEM table and the textbook formulas; bounded checks cover <= 4 alternatives, '
               '<= 3 nests, <= 5 ordered levels (thorough: 6 / 4 / 7) at random points only.')
 TECHNIQUE = 'contract-based deductive verification (AST -> VCs -> z3/cvc5) + shape-bounded translation validation of the real builders'
